@@ -439,6 +439,10 @@ func c01(c *Ctx) {
 		r.Check(wOK && rOK, "R01.W", "fixed-width:"+t.name, c.pos(m.Pos()), sprintf("writer: %s; reader pops %d bytes: %v", detail, t.len, rOK))
 	}
 
+	// the container reader builds one object per item (shared with C09 R09.G)
+	c.containerItemsDistinct("R01.H")
+	// ---- R01.D (ownership): the bytes Marshal returns belong to the caller ------------------------------
+	c.marshalOwnsResult("R01.D")
 	// ---- R01.D ----------------------------------------------------------------------------------
 	if mf := c.fn("R01.D", load.TLPkg, "", "Marshal"); mf != nil {
 		var bad []string
@@ -1076,5 +1080,61 @@ func c01Admission(c *Ctx) {
 			continue
 		}
 		r.Check(len(bad) == 0, "R01.V", st.key, c.pos(alloc.Pos()), sprintf("%d honest (size, bytes left) pairs evaluated: %s", n, strings.Join(bad, "; ")))
+	}
+}
+
+// marshalOwnsResult: the slice tl.Marshal returns is the content of a buffer created by this call and kept by nobody
+// else: a buffer taken from (or put back into) a pool, a package variable or the encoder's retained state is
+// overwritten by the next Marshal while the caller still holds the bytes (sendPacket marshals before it takes the
+// send lock).
+func (c *Ctx) marshalOwnsResult(rule string) {
+	r := c.R
+	mf := c.fn(rule, load.TLPkg, "", "Marshal")
+	if mf == nil {
+		return
+	}
+	tr := an.NewTracer()
+	n := 0
+	for _, b := range mf.Blocks {
+		ret, ok := b.Instrs[len(b.Instrs)-1].(*ssa.Return)
+		if !ok || len(ret.Results) != 2 || an.IsNilConst(ret.Results[0]) {
+			continue
+		}
+		n++
+		src := ret.Results[0]
+		if call, isCall := src.(*ssa.Call); isCall && an.CalleeName(call.Common()) == "(*bytes.Buffer).Bytes" {
+			src = call.Call.Args[0] // the buffer whose content is returned
+		}
+		os := tr.Origins(src)
+		fresh := len(os) > 0
+		for _, o := range os {
+			// bytes of a bytes.Buffer made here, or a fresh copy
+			okO := (strings.HasPrefix(o, "call:bytes.NewBuffer") || strings.HasPrefix(o, "alloc:bytes.Buffer") || strings.HasPrefix(o, "make:") || strings.HasPrefix(o, "call:builtin:append")) &&
+				!strings.Contains(o, "sync.Pool") && !strings.Contains(o, "global:")
+			if !okO {
+				fresh = false
+			}
+		}
+		// the buffer must not be handed to anything that keeps it (pool Put, store to a package variable)
+		kept := ""
+		for _, cs := range an.Calls(mf) {
+			if strings.Contains(cs.Name, "sync.Pool).Put") {
+				kept = "handed to " + shortCallee(cs.Name) + " at " + c.pos(cs.Pos())
+			}
+		}
+		for _, bb := range mf.Blocks {
+			for _, in := range bb.Instrs {
+				if st, isSt := in.(*ssa.Store); isSt {
+					if _, isG := st.Addr.(*ssa.Global); isG {
+						kept = "stored in a package variable at " + c.pos(st.Pos())
+					}
+				}
+			}
+		}
+		r.Check(fresh && kept == "", rule, sprintf("marshal:result-owned-by-caller#%d", n), c.pos(ret.Pos()),
+			"the returned bytes come from "+simplifyOrigin(strings.Join(os, " | "))+" "+kept+": they must belong to a buffer made by this call and kept by nobody else")
+	}
+	if n == 0 {
+		r.Undecide(rule, "marshal:result-owned-by-caller", c.pos(mf.Pos()), "no value-returning exit of tl.Marshal")
 	}
 }
